@@ -199,7 +199,7 @@ class DictArray(StorageBase):
         """Load the dict storage from disk."""
         if self.folder is None:  # pragma: no cover
             return
-        if not self.folder.exists():
+        if not self._path().is_file():  # nothing persisted (yet), e.g., an interrupted run
             return
         self._dict = load(self._path())
 
